@@ -42,6 +42,6 @@ def run(ctx):
     N[0] = ctx.budget(6, 30)
     ctx.rule = ("generated programs x seeded schedules (permutation of every batch of sibling 'e' messages); a case = one "
                 "program with its schedule seeds; non-trivial = at least one query instance and more than one world")
-    return cfgprop.run(ctx, MODULE, THEOREMS, variants, nq=50, nt=700, level="other",
+    return cfgprop.run(ctx, MODULE, THEOREMS, variants, nq=50, nt=700, level="other", gen_kwargs={"disjunction": True},
                        explanation="Schedules are explored (seeded), not proved; every schedule is compared with the Lean "
                                    "specification. The engine's internal algorithm is not modelled.")
